@@ -317,7 +317,7 @@ def main(ctx):
     if err:
         raise common.OracleBroken(err)
     jobs = []
-    top = ctx.pick(600, 3000)
+    top = ctx.pick(1500, 3000)
     small = list(range(2, top + 1))
     for ch in common.chunks(small[:47], ctx.jobs):
         jobs.append((shard_orders, "orders-all-pairs", (ch, 48)))
